@@ -1337,10 +1337,19 @@ func (c *Core) handleRequest(ctx context.Context, req *logical.Request) (retResp
 			// valid request (this is the token's final use). We pass the ID in
 			// directly just to be safe in case something else modifies te later.
 			defer func(id string) {
-				nsActiveCtx := namespace.ContextWithNamespace(c.activeContext.Load(), ns)
-				leaseID, err := c.expiration.CreateOrFetchRevocationLeaseByToken(nsActiveCtx, te)
+				// The token's lease lives in the token's namespace, which
+				// need not be the namespace the request is addressed to.
+				tokenNS, err := c.NamespaceByID(ctx, te.NamespaceID)
+				if err == nil && tokenNS == nil {
+					err = namespace.ErrNoNamespace
+				}
 				if err == nil {
-					err = c.expiration.LazyRevoke(ctx, leaseID)
+					var leaseID string
+					nsActiveCtx := namespace.ContextWithNamespace(c.activeContext.Load(), tokenNS)
+					leaseID, err = c.expiration.CreateOrFetchRevocationLeaseByToken(nsActiveCtx, te)
+					if err == nil {
+						err = c.expiration.LazyRevoke(namespace.ContextWithNamespace(ctx, tokenNS), leaseID)
+					}
 				}
 				if err != nil {
 					c.logger.Error("failed to revoke token", "error", err)
